@@ -27,10 +27,13 @@ PortNumber(p) == CASE p = "absent" -> 1965 [] p = "emptycolon" -> 1965 [] p = "1
 PortOk(p) == p \notin {"65536", "abc"}
 HostOk(h) == h \notin {"missing", "v6bare", "v6junk", "vfuture"}
 \* a gemini:// URL that satisfies the protocol grammar
-Wellformed(x) == /\ x.user \in {"none", "empty"} /\ HostOk(x.host) /\ PortOk(x.port) /\ x.path # "ctl"
-                 /\ x.frag \in {"absent", "emptyfrag"} /\ x.len # "over"
-\* grey zones left undecided: upper-case scheme, empty user-info ("@"), empty fragment ("#")
-Grey(x) == Wellformed(x) /\ (x.scheme = "GEMINI" \/ x.user = "empty" \/ x.frag = "emptyfrag")
+\* (an empty user-info "@" and an empty fragment "#" were left undecided until the third hunt: they are a user-info and a
+\*  fragment - the Titan parser already refused them, and a client that sends what it was given got 59 for URLs the
+\*  library had accepted)
+Wellformed(x) == /\ x.user = "none" /\ HostOk(x.host) /\ PortOk(x.port) /\ x.path # "ctl"
+                 /\ x.frag = "absent" /\ x.len # "over"
+\* grey zone left undecided: upper-case scheme
+Grey(x) == Wellformed(x) /\ x.scheme = "GEMINI"
 \* titan lines are judged by C08 only for "refused with 50 when uploads are off"; their grammar is ServerConn's business
 Verdict(x, up) ==
   IF x.scheme = "titan" THEN (IF ~up /\ x.len # "over" THEN "refuse50" ELSE "grey")
@@ -46,7 +49,7 @@ Expect(x) == [host |-> HostSeen(x.host), port |-> PortNumber(x.port),
 Norm(x) == [scheme |-> "gemini", user |-> "none", host |-> HostSeen(x.host),
             port |-> IF PortNumber(x.port) = 1965 THEN "absent" ELSE x.port,
             path |-> IF x.path = "empty" THEN "root" ELSE x.path,
-            query |-> IF x.query = "emptyq" THEN "absent" ELSE x.query, frag |-> "absent",
+            query |-> x.query, frag |-> "absent",      \* an empty query stays: "a?" is not "a"
             \* an empty path becomes "/": one byte longer - a URL already at the 1024-byte limit no longer fits
             len |-> IF x.path = "empty" /\ x.len = "max" /\ PortNumber(x.port) # 1965 THEN "over"
                     ELSE IF x.path = "empty" /\ x.len = "max" /\ x.port \in {"absent"} THEN "over" ELSE x.len]
